@@ -1,4 +1,5 @@
-from typing import Dict, List, Optional
+import copy
+from typing import Dict, Optional
 
 from . import ast
 from .grammar import ODataLexer, ODataParser  # type: ignore
@@ -38,9 +39,6 @@ class AliasRewriter(NodeTransformer):
             for k, v in self.field_aliases.items()
         }
 
-        # Lambda variables in scope: these are not fields and shadow aliases.
-        self._lambda_variables: List[ast.Identifier] = []
-
     def _replacement(self, node: ast._Node) -> Optional[ast._Node]:
         """
         The replacement for ``node``, if it is an alias.
@@ -57,19 +55,11 @@ class AliasRewriter(NodeTransformer):
 
     def visit_Identifier(self, node: ast.Identifier) -> ast._Node:
         """:meta private:"""
-        if node in self._lambda_variables:
-            return node
         replacement = self._replacement(node)
         return node if replacement is None else replacement
 
     def visit_Attribute(self, node: ast.Attribute) -> ast._Node:
         """:meta private:"""
-        root = node.owner
-        while isinstance(root, ast.Attribute):
-            root = root.owner
-        if root in self._lambda_variables:
-            return node
-
         replacement = self._replacement(node)
         if replacement is not None:
             return replacement
@@ -89,12 +79,24 @@ class AliasRewriter(NodeTransformer):
 
     def visit_Lambda(self, node: ast.Lambda) -> ast._Node:
         """:meta private:"""
-        self._lambda_variables.append(node.identifier)
-        try:
-            expression = self.visit(node.expression)
-        finally:
-            self._lambda_variables.pop()
-        return ast.Lambda(node.identifier, expression)
+        # The lambda variable is not a field: in the body it shadows every alias
+        # that is the same name or a path rooted at it. The body is rewritten
+        # with a copy that lacks those aliases, so that the rewriter itself
+        # keeps no state between (possibly concurrent) calls of `visit`.
+        scoped = copy.copy(self)
+        scoped.replacements = {
+            alias: replacement
+            for alias, replacement in self.replacements.items()
+            if _root(alias) != node.identifier
+        }
+        return ast.Lambda(node.identifier, scoped.visit(node.expression))
+
+
+def _root(node: ast._Node) -> ast._Node:
+    """The first segment of a path, or the node itself."""
+    while isinstance(node, ast.Attribute):
+        node = node.owner
+    return node
 
 
 class IdentifierStripper(NodeTransformer):
